@@ -41,31 +41,47 @@ def discretize(g, flux, dir_faces, n):
                           N=mat(md[up.bound_transport_neu_matrix_key]))
 
 
-def run_sel(g, G, s, bc, n):
-    flux = [si * (1 + (f % 3)) for f, si in enumerate(s)]  # only the sign may matter
+EXPS = [-40, 0, 30]  # flux magnitudes 2^e: ~1e-12, 1, ~1e9 (powers of two: every conversion stays exact)
+
+
+def run_sel(g, G, s, bc, n, exps):
+    base = [si * (1 + (f % 3)) for f, si in enumerate(s)]  # only the sign may matter
     dir_faces = [f for f, b in enumerate(bc) if b == "dir"]
-    try:
-        _, _, out = discretize(g, flux, dir_faces, n)
-        out["ok"] = True
-    except Exception as e:  # noqa: BLE001 - a crash on an input of the family is "no matrix"
-        z = dict(shape=[0, 0], ent=[])
-        out = dict(ok=False, U=z, D=z, N=z, error=f"{type(e).__name__}: {e}"[:200])
-    return dict(kind="sel", g=G, s=s, bc=bc, n=n, flux=flux, out=out)
+    outs = []
+    for e in exps:
+        flux = [x * 2.0 ** e for x in base]
+        try:
+            _, _, out = discretize(g, flux, dir_faces, n)
+            out.update(ok=True, e=e)
+        except Exception as ex:  # noqa: BLE001 - a crash on an input of the family is "no matrix"
+            z = dict(shape=[0, 0], ent=[])
+            out = dict(ok=False, e=e, U=z, D=z, N=z, error=f"{type(ex).__name__}: {ex}"[:200])
+        outs.append(out)
+    return dict(kind="sel", g=G, s=s, bc=bc, n=n, flux=base, exps=list(exps), outs=outs)
 
 
-def run_tr(g, G, vol, r):
-    try:
-        up, data, _ = discretize(g, r["flux"], [], 1)
-        A, rhs = up.assemble_matrix_rhs(g, data)
-        rhs = np.asarray(rhs, dtype=float).ravel()
-        if not np.array_equal(rhs, np.round(rhs)):
-            raise RuntimeError(f"non-integer right-hand side {rhs}")
-        out = dict(ok=True, A=entries(A), rhs=[int(x) for x in rhs])
-    except RuntimeError:
-        raise
-    except Exception as e:  # noqa: BLE001 - a crash on an input of the family is "no step"
-        out = dict(ok=False, A=[], rhs=[0] * G["nc"], error=f"{type(e).__name__}: {e}"[:200])
-    return dict(kind="tr", g=G, flux=r["flux"], psi=r["psi"], vol=vol, inits=r["inits"], dts=r["dts"], out=out)
+def _unscale(m, e):
+    """Matrix / vector in units of 2^e (exact: division by a power of two)."""
+    return m * (2.0 ** (-e))
+
+
+def run_tr(g, G, vol, r, exps):
+    outs = []
+    for e in exps:
+        try:
+            up, data, _ = discretize(g, [x * 2.0 ** e for x in r["flux"]], [], 1)
+            A, rhs = up.assemble_matrix_rhs(g, data)
+            rhs = _unscale(np.asarray(rhs, dtype=float).ravel(), e)
+            if not np.array_equal(rhs, np.round(rhs)):
+                raise RuntimeError(f"non-integer right-hand side {rhs}")
+            out = dict(ok=True, e=e, A=entries(_unscale(A.tocsr(), e)), rhs=[int(x) for x in rhs])
+        except RuntimeError:
+            raise
+        except Exception as ex:  # noqa: BLE001 - a crash on an input of the family is "no step"
+            out = dict(ok=False, e=e, A=[], rhs=[0] * G["nc"], error=f"{type(ex).__name__}: {ex}"[:200])
+        outs.append(out)
+    return dict(kind="tr", g=G, flux=r["flux"], psi=r["psi"], vol=vol, inits=r["inits"], dts=r["dts"],
+                exps=list(exps), outs=outs)
 
 
 def tgrid(recipe):
@@ -105,8 +121,8 @@ def judge_cases(ctx, cases, tag, chunk=6000):
 
 def _describe(c):
     if c["kind"] == "sel":
-        return f"src={c['src']} signs={c['s']} bc={c['bc']} n={c['n']} U={c['out']['U']['ent']}"[:400]
-    return f"src={c['src']} flux={c['flux']} A={c['out']['A']}"[:400]
+        return f"src={c['src']} signs={c['s']} bc={c['bc']} n={c['n']} U(2^e)={[(o['e'], o['U']['ent']) for o in c['outs']]}"[:500]
+    return f"src={c['src']} flux={c['flux']} A/2^e={[(o['e'], o['A']) for o in c['outs']]}"[:500]
 
 
 def run(ctx):
@@ -115,7 +131,9 @@ def run(ctx):
                 "assignments on 1D chains, periodic base-3 patterns on 2D/3D grids, complexes with reversed normals "
                 "and split faces instantiated with pp.Grid, real Cartesian / fractured grids - plus seeded random sign / "
                 "condition assignments on larger real grids (2D, 3D, simplex, two fractures) is discretised with "
-                "pp.Upwind and the three matrices are judged by TLC on the faces with nonzero flux; transport: every "
+                "pp.Upwind at flux magnitudes 2^-40 (~1e-12), 1 and 2^30 (~1e9) and the three matrices of every "
+                "magnitude are judged by TLC on the faces with nonzero flux; transport (same three magnitudes, dt "
+                "scaled inversely so that the exact step is the same): every "
                 "integer stream function on the interior nodes gives a divergence-free no-flow flux, the matrix of "
                 "assemble_matrix_rhs is used by TLC for exact explicit steps (3 initial states x 2 steps) judged for "
                 "conservation and the min/max principle; keys = (kind, grid, #nonzero faces, #dir, n) / (tr, grid, "
@@ -123,12 +141,12 @@ def run(ctx):
     if ctx.quick:
         boxes = {("chain", 1, 1), ("chain", 2, 1), ("chain", 3, 1), ("quad", 2, 2), ("tri", 1, 1)}
         consts = dict(Boxes=boxes, MaskBits=2, SplitChoices={-1, 1}, MaxCells=8, SignPeriod=3, BcPeriod=2,
-                      PsiVals={-1, 0, 2}, MaxChainFaces=4, Masks={0, 1})
+                      PsiVals={-1, 0, 2}, MaxChainFaces=3, Masks={0, 1})
         sel_recipes = [["cart", [2, 2]], ["cart", [3, 2]], ["frac", [[[1, 1], [0, 1]]], [2, 2], 0]]
         t_recipes = [["cart", [3, 3]]]
     else:
-        boxes = {("chain", 1, 1), ("chain", 2, 1), ("chain", 3, 1), ("chain", 4, 1), ("quad", 2, 2), ("quad", 3, 2),
-                 ("tri", 1, 1), ("tri", 2, 1)}
+        boxes = {("chain", 1, 1), ("chain", 2, 1), ("chain", 3, 1), ("chain", 4, 1), ("quad", 2, 2), ("tri", 1, 1),
+                 ("tri", 2, 1)}
         consts = dict(Boxes=boxes, MaskBits=2, SplitChoices={-1, 1}, MaxCells=8, SignPeriod=4, BcPeriod=3,
                       PsiVals={-2, -1, 0, 1, 2}, MaxChainFaces=5, Masks={0, 1, 2})
         sel_recipes = [["cart", [2, 2]], ["cart", [3, 2]], ["cart", [2, 1, 1]], ["stri", [2, 1]],
@@ -138,23 +156,23 @@ def run(ctx):
     sel_grids = [build(rc) for rc in sel_recipes]
     sel_G = [grid_to_inc(g) for g in sel_grids]
     tg = [tgrid(rc) for rc in t_recipes]
-    consts.update(SelGrids=sel_G, TGrids=[t for _, t in tg])
+    consts.update(SelGrids=sel_G, TGrids=[t for _, t in tg], ScaleExps=set(EXPS))
     res = ctx.tlc(*tlc.gen(ctx.work / "enum", "MC_UpwindEnum", "UpwindEnum", consts, spec="USpec",
                            invariants=["ULaws", "UEmit"]), allow_violation=False, workers=8)
     cases = []
     for r in res.records:
         if r["src"] == "complex":
             g = inc_to_grid(r["g"], r["xy"])
-            c = run_sel(g, r["g"], r["s"], r["bc"], r["n"])
+            c = run_sel(g, r["g"], r["s"], r["bc"], r["n"], r["exps"])
             c["src"] = dict(kind="complex", tag=r["tag"], xy=r["xy"])
         elif r["src"] == "real":
             gi = r["gi"]
-            c = run_sel(sel_grids[gi - 1], sel_G[gi - 1], r["s"], r["bc"], r["n"])
+            c = run_sel(sel_grids[gi - 1], sel_G[gi - 1], r["s"], r["bc"], r["n"], r["exps"])
             c["src"] = dict(kind="real", recipe=sel_recipes[gi - 1], tag=r["tag"])
         else:
             gi = r["gi"]
             g, t = tg[gi - 1]
-            c = run_tr(g, t["G"], t["vol"], r)
+            c = run_tr(g, t["G"], t["vol"], r, r["exps"])
             c["src"] = dict(kind="tr", recipe=t_recipes[gi - 1])
         cases.append(c)
     # seeded random flux signs / boundary conditions / component counts on (larger) real grids
@@ -163,11 +181,11 @@ def run(ctx):
     for rc in rnd_recipes:
         g = build(rc)
         G = grid_to_inc(g)
-        for _ in range(25 if ctx.quick else 250):
+        for _ in range(25 if ctx.quick else 100):
             pz = ctx.rng.choice([0.0, 0.2, 0.5])
             s = [0 if ctx.rng.random() < pz else ctx.rng.choice([-1, 1]) for _ in range(G["nf"])]
             bc = ["int" if len(ps) == 2 else ctx.rng.choice(["dir", "neu"]) for ps in G["cf"]]
-            c = run_sel(g, G, s, bc, ctx.rng.randint(1, 3))
+            c = run_sel(g, G, s, bc, ctx.rng.randint(1, 3), EXPS)
             c["src"] = dict(kind="real", recipe=rc, tag="random")
             cases.append(c)
     judge_cases(ctx, cases, "judge")
@@ -181,10 +199,12 @@ def run(ctx):
             nzf = sum(1 for x in c["flux"] if x)
             ctx.case(key=("tr", str(c["src"]["recipe"]), nzf), nontrivial=nzf > 0, n=len(c["inits"]) * len(c["dts"]))
     s1 = next(c for c in cases if c["kind"] == "sel" and c["src"]["kind"] == "real" and sum(map(abs, c["s"])) > 3)
-    ctx.sample(dict(src=s1["src"], s=s1["s"], bc=s1["bc"], n=s1["n"], U=s1["out"]["U"]["ent"], D=s1["out"]["D"]["ent"]))
+    ctx.sample(dict(src=s1["src"], s=s1["s"], bc=s1["bc"], n=s1["n"], exps=s1["exps"],
+                    U=s1["outs"][0]["U"]["ent"], D=s1["outs"][0]["D"]["ent"]))
     t1 = [c for c in cases if c["kind"] == "tr" and any(c["flux"])]
     if t1:
-        ctx.sample(dict(src=t1[0]["src"], psi=t1[0]["psi"], flux=t1[0]["flux"], dts=t1[0]["dts"], A=t1[0]["out"]["A"]))
+        ctx.sample(dict(src=t1[0]["src"], psi=t1[0]["psi"], flux=t1[0]["flux"], dts=t1[0]["dts"], exps=t1[0]["exps"],
+                        A_in_units_of_scale=t1[0]["outs"][0]["A"]))
     ctx.exhaustive = True
     ctx.extra["selection_cases"] = sum(1 for c in cases if c["kind"] == "sel")
     ctx.extra["transport_cases"] = sum(1 for c in cases if c["kind"] == "tr")
@@ -200,11 +220,11 @@ def replay(ctx, body):
         else:
             g = build(src["recipe"])
             G = grid_to_inc(g)
-        case = run_sel(g, G, rec["s"], rec["bc"], rec["n"])
+        case = run_sel(g, G, rec["s"], rec["bc"], rec["n"], rec["exps"])
     else:
         g, t = tgrid(src["recipe"])
-        case = run_tr(g, t["G"], t["vol"], rec)
+        case = run_tr(g, t["G"], t["vol"], rec, rec["exps"])
     case["src"] = src
     ctx.case(key="replay")
-    ctx.sample(dict(src=src, out=str(case["out"])[:400]))
+    ctx.sample(dict(src=src, outs=str(case["outs"])[:400]))
     judge_cases(ctx, [case], "replay")
